@@ -91,7 +91,7 @@ type Scenario struct {
 var registry = map[string][]*Scenario{}
 
 func Register(s *Scenario) {
-	if s.Weight <= 0 {
+	if s.Weight == 0 {
 		s.Weight = 1
 	}
 	registry[s.Prop] = append(registry[s.Prop], s)
@@ -118,12 +118,18 @@ func pickScenario(prop string, t *Tape) *Scenario {
 	if len(l) == 0 {
 		return nil
 	}
+	// a negative weight marks a scenario that only runs when forced
 	total := 0
 	for _, s := range l {
-		total += s.Weight
+		if s.Weight > 0 {
+			total += s.Weight
+		}
 	}
 	v := t.Choose(total, "scenario")
 	for _, s := range l {
+		if s.Weight <= 0 {
+			continue
+		}
 		if v < s.Weight {
 			return s
 		}
